@@ -38,7 +38,7 @@ theorem C02_removeConflict_removes (n : Nat) (s s' : Store) (rec : Tx) (h : remo
 unspent index and the balance counter are untouched when unconfirmed conflicts and their descendants disappear -/
 theorem C02_removeConflict_mined_untouched (n : Nat) (s s' : Store) (rec : Tx) (h : removeConflict n s rec = .ok s') :
     s'.blocks = s.blocks ∧ s'.txrecs = s.txrecs ∧ s'.credits = s.credits ∧ s'.unspent = s.unspent ∧
-      s'.minedBalance = s.minedBalance :=
+      s'.minedBalance = s.minedBalance ∧ s'.debits = s.debits :=
   sameMined_removeConflict n s rec s' h
 
 /-- the unconfirmed buckets only shrink -/
